@@ -21,7 +21,7 @@ THEOREMS = ["C02_gauss_loop_is_bin_average", "C02_lorentz_loop_is_bin_integral",
             "C02_gauss_bounds", "C02_gauss_total_partial", "C02_line_linear",
             "C02_zeeman_weights", "C02_pi_plus_sigma_is_unpolarised", "C02_multiplet_shares",
             "C02_zeeman_structure_normalised", "C02_mse_weights", "C02_stark_weights",
-            "C02_stark_integral_partial", "C02_zero_width_adds_nothing"]
+            "C02_stark_integral_partial", "C02_zero_width_adds_nothing", "C02_quadrature_cache_row"]
 
 CLASSES = ["GaussianLine", "MultipletLineShape", "ZeemanTriplet", "ParametrisedZeemanTriplet", "ZeemanMultiplet",
            "StarkBroadenedLine", "BeamEmissionMultiplet"]
@@ -62,6 +62,60 @@ class Impl:
                          elements.beryllium, elements.carbon, elements.nitrogen, elements.neon, elements.argon,
                          elements.tungsten]
         self.ad = AtomicData()
+        from cherab.core.math.integrators import GaussianQuadrature
+        self.GaussianQuadrature = GaussianQuadrature
+        self.pool = {}            # reused integrator objects: index -> [object, full history]
+        self._integ_for = {}      # id(case) -> integrator (the setter calls of a case are made once)
+
+    @staticmethod
+    def apply_ops(q, ops):
+        """calls the public setters; returns the list 'ValueError raised' per call"""
+        errs = []
+        for name, val in ops:
+            try:
+                if name == "integrand":
+                    q.integrand = (lambda x: 1.0 + x * x) if val else 2.5
+                else:
+                    setattr(q, name, val)
+                errs.append(False)
+            except ValueError:
+                errs.append(True)
+        return errs
+
+    def integrator(self, c):
+        """the integrator of a Stark case, configured as the case says: None = the class default; otherwise a constructor
+        call and/or a sequence of setter calls, possibly on an object reused from earlier cases"""
+        spec = c.get("integ")
+        if spec is None:
+            return None
+        if "key" not in spec:
+            spec["key"] = len(self._integ_for) + 1
+        if spec["key"] in self._integ_for:
+            return self._integ_for[spec["key"]]
+        idx = spec.get("pool")
+        if idx is not None and idx in self.pool:
+            q, hist = self.pool[idx]
+        else:
+            rtol, mx, mn = spec["ctor"]
+            q = self.GaussianQuadrature(relative_tolerance=rtol, max_order=mx, min_order=mn)
+            hist = [["ctor", [rtol, mx, mn]]]
+            if idx is not None:
+                self.pool[idx] = [q, hist]
+        self.apply_ops(q, spec["ops"])
+        hist.extend(spec["ops"])
+        # whatever the history, the parameters in force must be at least as demanding as the defaults the tolerance of the
+        # correspondence was measured with
+        fin = []
+        if q.max_order < 30:
+            fin.append(["max_order", 50])
+        if q.relative_tolerance > 1e-5:
+            fin.append(["relative_tolerance", 1e-5])
+        self.apply_ops(q, fin)
+        hist.extend(fin)
+        spec["history_of_object"] = [list(h) for h in hist]
+        spec["final"] = [q.relative_tolerance, q.max_order, q.min_order]
+        self._integ_for[spec["key"]] = q
+        return q
 
     def spectrum(self, c, smp0=None):
         s = self.Spectrum(c["gmin"], c["gmax"], c["bins"])
@@ -96,7 +150,10 @@ class Impl:
             zs = self.ZeemanStructure(*[[(wl, r) for wl, r in c[k]] for k in ("raw_pi", "raw_sp", "raw_sm")])
             return M.ZeemanMultiplet(line, w, sp, plasma, self.ad, zs, polarisation=pol)
         if cls == "StarkBroadenedLine":
-            return M.StarkBroadenedLine(line, w, sp, plasma, self.ad, tuple(c["stark"]), polarisation=pol)
+            q = self.integrator(c)
+            if q is None:
+                return M.StarkBroadenedLine(line, w, sp, plasma, self.ad, tuple(c["stark"]), polarisation=pol)
+            return M.StarkBroadenedLine(line, w, sp, plasma, self.ad, tuple(c["stark"]), integrator=q, polarisation=pol)
         if cls == "BeamEmissionMultiplet":
             beam = self.Beam()
             beam.plasma = plasma
@@ -301,6 +358,7 @@ def gen_physics(rng, cls, exact, impl):
         # Coq, so mixed cases get few bins)
         k = rng.random()
         c["stark_kind"] = "mixed"
+        c["integ"] = gen_integ(rng)
         if k < 0.12:
             c["ne"] = rng.choice([0.0, -1.0])
             c["stark_kind"] = "doppler_only"
@@ -334,6 +392,35 @@ def gen_physics(rng, cls, exact, impl):
         elif k < 0.16:
             c["te"] = rng.choice([0.0, -1.0])
     return c
+
+
+def gen_integ_ops(rng, n):
+    ops = []
+    for _ in range(n):
+        k = rng.random()
+        if k < 0.4:
+            ops.append(["min_order", rng.choice([1, 2, 3, 4, 5, 6, 8, 10, 12, 16, 20, 0, -1, 70])])
+        elif k < 0.75:
+            ops.append(["max_order", rng.choice([1, 2, 3, 5, 8, 12, 20, 24, 30, 40, 50, 60, 0])])
+        elif k < 0.9:
+            ops.append(["relative_tolerance", rng.choice([1e-3, 1e-5, 1e-6, 1e-8, 0.0, -1e-5])])
+        else:
+            ops.append(["integrand", rng.choice([0, 1])])
+    return ops
+
+
+def gen_integ(rng):
+    """how a Stark case obtains its integrator: class default / constructor arguments only / constructor then setters
+    (raising and lowering, valid and rejected values) / an object already used by earlier cases plus more setter calls"""
+    k = rng.random()
+    if k < 0.25:
+        return None
+    ctor = [rng.choice([1e-5, 1e-6, 1e-8]), rng.choice([24, 30, 40, 50, 60]), rng.choice([1, 1, 2, 3, 5, 8])]
+    if k < 0.4:
+        return {"pool": None, "ctor": ctor, "ops": []}
+    if k < 0.7:
+        return {"pool": None, "ctor": ctor, "ops": gen_integ_ops(rng, rng.randint(1, 4))}
+    return {"pool": rng.randrange(3), "ctor": ctor, "ops": gen_integ_ops(rng, rng.randint(0, 3))}
 
 
 WINDOW_KINDS = ["spans", "spans", "straddle_left", "straddle_right", "inside_narrow", "one_bin", "outside_left",
@@ -526,6 +613,88 @@ def property_failures(impl, W, c, m, out=None):
     return fails
 
 
+SMOOTH = [("exp", math.exp, lambda a, b: math.exp(b) - math.exp(a)),
+          ("1/(1+x^2)", lambda x: 1.0 / (1.0 + x * x), lambda a, b: math.atan(b) - math.atan(a)),
+          ("sin 3x", lambda x: math.sin(3 * x), lambda a, b: (math.cos(3 * a) - math.cos(3 * b)) / 3.0)]
+
+
+def quadrature_cases(impl, rng, n):
+    """GaussianQuadrature driven through its constructor and every setter, in sequences; afterwards it integrates
+    polynomials of degree <= 2 min_order - 1 (Gauss-Legendre is exact on them; value checked in Coq against the exact
+    rational integral) and smooth functions (checked here: equal, bit for bit, to a freshly constructed integrator with
+    the same final parameters, and close to the closed form)"""
+    GQ = impl.GaussianQuadrature
+    out, fails = [], []
+    reuse = None
+    for k in range(n):
+        rec = {}
+        if reuse is not None and rng.random() < 0.3:
+            q, rec = reuse[0], {"ctor": reuse[1]["ctor"], "ctor_ok": True, "ops": list(reuse[1]["ops"]), "errs": list(reuse[1]["errs"])}
+        else:
+            r = rng.random()
+            ctor = [rng.choice([1e-5, 1e-7, 1e-9]) if r > 0.06 else rng.choice([0.0, -1.0]),
+                    rng.choice([1, 2, 3, 5, 8, 12, 16, 24, 50]) if r > 0.12 else rng.choice([0, -3]),
+                    rng.choice([1, 1, 2, 3, 4, 6, 9, 12]) if r > 0.18 else rng.choice([0, 60])]
+            rec = {"ctor": ctor, "ops": [], "errs": []}
+            try:
+                q = GQ(relative_tolerance=ctor[0], max_order=ctor[1], min_order=ctor[2])
+                rec["ctor_ok"] = True
+            except ValueError:
+                q = None
+                rec["ctor_ok"] = False
+        if q is not None:
+            ops = gen_integ_ops(rng, rng.randint(0, 6))
+            rec["errs"] += Impl.apply_ops(q, ops)
+            rec["ops"] += ops
+            rec["min"], rec["max"], rec["rtol"] = int(q.min_order), int(q.max_order), float(q.relative_tolerance)
+            reuse = (q, rec)
+            polys = []
+            for _ in range(2):
+                deg = rng.randint(0, min(2 * rec["min"] - 1, 15))
+                cs = [dyadic(rng, -4, 4, 3) for _ in range(deg + 1)]
+                a, b = dyadic(rng, -2, 2, 4), dyadic(rng, -2, 3, 4)
+                q.integrand = (lambda x, cs=cs: sum(c_ * x ** i for i, c_ in enumerate(cs)))
+                polys.append({"coeffs": cs, "a": a, "b": b, "value": float(q(a, b))})
+            rec["polys"] = polys
+            fresh = GQ(relative_tolerance=rec["rtol"], max_order=rec["max"], min_order=rec["min"])
+            for name, f, prim in SMOOTH:
+                a = rng.uniform(-1.5, 1.0)
+                b = a + rng.uniform(0.05, 1.5)
+                q.integrand = f
+                fresh.integrand = f
+                v, vf = float(q(a, b)), float(fresh(a, b))
+                if v != vf:
+                    fails.append({"claim": "GaussianQuadrature configured through setters integrates like a freshly constructed one "
+                                           "with the same parameters", "cls": "GaussianQuadrature", "function": name, "a": a, "b": b,
+                                  "got": v, "fresh": vf, "case": {k_: rec[k_] for k_ in ("ctor", "ops", "min", "max", "rtol")}})
+                elif rec["max"] >= 8 and abs(v - prim(a, b)) > 20 * rec["rtol"] * abs(prim(a, b)) + 1e-13:
+                    fails.append({"claim": "GaussianQuadrature integrates a smooth function to its tolerance", "cls": "GaussianQuadrature",
+                                  "function": name, "a": a, "b": b, "got": v, "want": prim(a, b),
+                                  "case": {k_: rec[k_] for k_ in ("ctor", "ops", "min", "max", "rtol")}})
+        else:
+            rec.update({"min": 0, "max": 0, "rtol": 0.0, "polys": []})
+            rec["ops"], rec["errs"] = [], []
+        out.append({k_: (list(v_) if isinstance(v_, list) else v_) for k_, v_ in rec.items()})
+    return out, fails
+
+
+def quad_text(r):
+    def op(o):
+        name, val = o
+        if name == "min_order":
+            return "SetMin %s" % zlit(val)
+        if name == "max_order":
+            return "SetMax %s" % zlit(val)
+        if name == "relative_tolerance":
+            return "SetRtol %s" % ("true" if val > 0 else "false")
+        return "SetIntegrand"
+    polys = "; ".join("(%s, %s, %s, %s)" % (qlist(p_["coeffs"]), qlit(p_["a"]), qlit(p_["b"]), qlit(p_["value"])) for p_ in r["polys"])
+    return "check_quad %s %s %s [%s] %s [%s] %s %s [%s]" % (
+        zlit(r["ctor"][1]), zlit(r["ctor"][2]), "true" if r["ctor"][0] > 0 else "false",
+        "; ".join(op(o) for o in r["ops"]), "true" if r["ctor_ok"] else "false",
+        "; ".join("true" if e else "false" for e in r["errs"]), zlit(r["min"]), zlit(r["max"]), polys)
+
+
 def stark_coarse_probe(impl, quick):
     """StarkBroadenedLine (default integrator) with no Doppler part, window spanning +-60 FWHM: integral / R for bins of
     1 .. 200 FWHM and several alignments of the line inside its bin"""
@@ -601,7 +770,8 @@ def run(ctx):
         "int casts of floor/ceil results fit a C int; spectrum.delta_wavelength > 0",
     ]
     ctx.rebuild()
-    ctx.proofs("Properties.C02", THEOREMS, extra_modules=("Model.C02_LineShape", "Proofs.C02_Gauss", "Proofs.C02_Norm", "Proofs.C02_Weights", "Model.C02_Check"))
+    ctx.proofs("Properties.C02", THEOREMS, extra_modules=("Model.C02_LineShape", "Model.C02_Quadrature", "Proofs.C02_Gauss", "Proofs.C02_Norm", "Proofs.C02_Weights",
+                              "Proofs.C02_Quadrature", "Model.C02_Check"))
 
     import cherab
     assert list(cherab.__path__) == [REPO + "/cherab"], cherab.__path__
@@ -707,6 +877,20 @@ def run(ctx):
         nonfinite = [i for i, v in enumerate(out) if not math.isfinite(v)]
         probes.append((c, nonfinite))
 
+    # ---- GaussianQuadrature through constructor / setter histories -------------------------------------
+    quads, quad_fails = quadrature_cases(impl, rng, 80 if quick else 1200)
+    search_fails += quad_fails
+    dist["quadrature"] = {"histories": len(quads), "constructor_rejected": sum(1 for r in quads if not r["ctor_ok"]),
+                          "setter_calls": sum(len(r["ops"]) for r in quads), "setter_calls_rejected": sum(sum(r["errs"]) for r in quads),
+                          "min_order_raised": sum(1 for r in quads for o in r["ops"] if o[0] == "min_order"),
+                          "polynomials": sum(len(r["polys"]) for r in quads)}
+    dist["stark_integrator_routes"] = {}
+    for c_, _, _, _, _ in cases:
+        if c_["cls"] == "StarkBroadenedLine":
+            sp_ = c_.get("integ")
+            bump(dist["stark_integrator_routes"], "class default" if sp_ is None else
+                 ("reused object" if sp_.get("pool") is not None else ("constructor only" if not sp_["ops"] else "constructor + setters")))
+
     # ---- write the Coq files --------------------------------------------------------------------
     header = ("Require Import Cherab.Common.Qx Cherab.Model.C02_LineShape Cherab.Model.C02_Check.\nOpen Scope Q_scope.\n"
               "Definition K : consts := {| k_amu := %s; k_e := %s; k_c := %s; k_muB := %s; k_hc := %s |}.\n"
@@ -737,9 +921,16 @@ def run(ctx):
                 "; ".join(zlit(i) + "%Z" for i in nf)) for c, nf in chunk]
             txt = header + "Definition results : list bool := [\n  " + ";\n  ".join(body) + "].\nEval vm_compute in (failing results).\n"
             files.append((ctx.write_gen("support_%03d.v" % (si // per), txt), list(range(si, si + len(chunk))), "support"))
+    per = 200
+    for si in range(0, len(quads), per):
+        chunk = quads[si:si + per]
+        txt = (header.replace("Cherab.Model.C02_Check.", "Cherab.Model.C02_Check Cherab.Model.C02_Quadrature.")
+               + "Definition results : list bool := [\n  " + ";\n  ".join(quad_text(r) for r in chunk)
+               + "].\nEval vm_compute in (failing results).\n")
+        files.append((ctx.write_gen("quadrature_%03d.v" % (si // per), txt), list(range(si, si + len(chunk))), "quad"))
     ctx.log("generated %d value cases, %d support probes (%d ambiguous skipped); running coqc" % (len(cases), len(probes), ambiguous))
     res = coqc_many([f for f, _, _ in files], timeout=1500)
-    diff_cases, diff_probes = [], []
+    diff_cases, diff_probes, diff_quads = [], [], []
     max_usage = 0.0
     for f, ids, kind in files:
         ok, out = res[f]
@@ -754,7 +945,7 @@ def run(ctx):
                        good and not failing, out if not good else "DIFF at local indices %s" % failing)
         if not good:
             ctx.broken.append("coqc failed on %s: %s" % (f, out[-600:]))
-        (diff_cases if kind == "values" else diff_probes).extend(ids[i] for i in failing)
+        {"values": diff_cases, "support": diff_probes, "quad": diff_quads}[kind].extend(ids[i] for i in failing)
     ctx.log("correspondence: %d value cases (%d disagree), %d support probes (%d disagree)" % (
         len(cases), len(diff_cases), len(probes), len(diff_probes)))
 
@@ -807,6 +998,12 @@ def run(ctx):
         ctx.violation(key, "%s: %s" % (sf["cls"], sf["claim"]), sf, found=True)
         if len(seen) >= 6:
             break
+    for qi in diff_quads[:3]:
+        r = quads[qi]
+        ctx.violation("c02:GaussianQuadrature:setter-history",
+                      "GaussianQuadrature: after this constructor call and setter history the integrator does not integrate a polynomial "
+                      "of degree <= 2 min_order - 1 exactly / reports other orders or errors than the model (the integrator of the Stark part "
+                      "of StarkBroadenedLine)", {"history": r}, found=True)
     if (diff_cases or diff_probes) and not search_fails:
         for ci in diff_cases[:3]:
             c = cases[ci][0]
@@ -820,7 +1017,7 @@ def run(ctx):
                           {"case": c, "bins_written": nf}, found=True)
 
     ctx.coverage.update({
-        "evaluations": len(cases) + len(probes),
+        "evaluations": len(cases) + len(probes) + len(quads),
         "distinct_nontrivial": nontrivial + sum(1 for _, nf in probes if nf),
         "rule": "one value case = one add_line / add_gaussian_line call on a generated state and window, every bin compared in Coq; "
                 "non-trivial = the call changed at least one bin (value cases) or wrote to at least one bin (support probes)",
